@@ -17,9 +17,14 @@ NANW = z3.Const("NANW", I)
 fconst = z3.Function("fconst", I, I)     # word of the n-th distinct float literal
 
 
+def fzero(kind):
+    """the word of +0.0 at this width (all-zero bytes)"""
+    return z3.Const(f"FZERO_{kind}", I)
+
+
 def float_axioms(ctx):
     w = z3.Const("fw", I)
-    ctx.axiom_once("nan", z3.And(isnan(NANW),
+    ctx.axiom_once("nan", z3.And(isnan(NANW), z3.Not(isnan(fzero("f4"))), z3.Not(isnan(fzero("f8"))),
                                  z3.ForAll([w], isnan(z3.Function("py_to_f4", I, I)(w)) == isnan(w)),
                                  z3.ForAll([w], isnan(z3.Function("f4_to_f8", I, I)(w)) == isnan(w)),
                                  z3.ForAll([w], z3.Not(isnan(z3.Function("int_to_f4", I, I)(w)))),
@@ -468,13 +473,29 @@ def frombuffer(interp, data, dt):
             s = reinterpret(interp, a, dt.kind)
             items += [s.get(i) for i in range(conc(a.count))]
         return VNd(shape, dt, _unflatten(Seq.of(items), shape))
+    if all(isinstance(a, AField) or (isinstance(a, APad) and not a.dontcare) for a in atoms) and any(isinstance(a, AField) for a in atoms):
+        # fields followed / separated by zero bytes read as one array: zero bytes are zero items
+        zero = fzero(dt.kind) if dt.kind in ("f4", "f8") else z3.IntVal(0)
+        seq = None
+        for a in atoms:
+            if isinstance(a, AField):
+                part = reinterpret(interp, a, dt.kind)
+                part = Seq(a.count, part.get)
+            else:
+                cnt = z3.simplify(zint(a.n) / ITEMSIZE[dt.kind])
+                if not ctx.entails(zint(a.n) == cnt * ITEMSIZE[dt.kind]):
+                    raise Unaligned("zero bytes that are not whole items")
+                part = Seq(cnt, lambda i: zero)
+            seq = part if seq is None else seq.concat(part)
+        return VNd(shape, dt, _unflatten(seq, shape))
     if len(atoms) == 1 and isinstance(atoms[0], APad) and atoms[0].dontcare:
         f = ctx.fresh_fun("dontcare_items", 1)
         nd = VNd(shape, dt, _unflatten(Seq(n * per, lambda i: f(i)), shape))
         nd.tainted = True
         return nd
     if len(atoms) == 1 and isinstance(atoms[0], APad):
-        return VNd(shape, dt, lambda *i: z3.IntVal(0))
+        zero = fzero(dt.kind) if dt.kind in ("f4", "f8") else z3.IntVal(0)
+        return VNd(shape, dt, lambda *i: zero)
     raise Unaligned(f"frombuffer({dt!r}) over {atoms!r}: the bytes read do not form one field of the layout")
 
 
@@ -604,7 +625,13 @@ def nd_index(interp, a, idx):
             if ix.step is not None:
                 raise OutOfReach("strided slice")
             lo, hi = _clip_slice(interp, ix, n)
-            fixed.append(("s", lo, z3.simplify(If(zint(hi) > zint(lo), zint(hi) - zint(lo), 0)) if conc(hi) is None or conc(lo) is None else max(conc(hi) - conc(lo), 0)))
+            if conc(hi) is not None and conc(lo) is not None:
+                ln = max(conc(hi) - conc(lo), 0)
+            elif ctx.entails(zint(hi) >= zint(lo)):
+                ln = z3.simplify(zint(hi) - zint(lo))
+            else:
+                ln = z3.simplify(If(zint(hi) > zint(lo), zint(hi) - zint(lo), 0))
+            fixed.append(("s", lo, ln))
         elif is_int(ix):
             c, cn = conc(ix), conc(n)
             if c is not None and cn is not None:
